@@ -105,11 +105,10 @@ pub fn judge_scale(op: usize, a: i128, k: i64, out: &mut Local) -> Option<Durati
         _ => {
             // defect model D1: the pinned total_nanoseconds() reads c*NPC - n for c <= -2
             if let Ok(d) = &got {
-                // (both the duration operand and the factor, which the code turns into a duration of k ns, are read that way)
-                let dk = mk(k as i128);
-                if (in_d1_domain(da) || in_d1_domain(dk)) && canonical(*d) {
+                // (only the duration operand: since the repair of D64 the factor / divisor is read exactly)
+                if in_d1_domain(da) && canonical(*d) {
                     let t1 = d1_total(da);
-                    let k1 = d1_total(dk);
+                    let k1 = k as i128;
                     let w1 = clamp(if op == 2 { t1 / k1 } else { t1.saturating_mul(k1) });
                     if alpha(*d) == w1 {
                         out.viol(&check, "defect:D1".into(), vec![enc(a), k.to_string()], describe(want), format!("{} {}", show(*d), describe(alpha(*d))));
